@@ -1,7 +1,8 @@
 (* C17 - PRINCE-LING: most probable first, each once, at most --size words. *)
 From Coq Require Import List Arith Sorting.Permutation.
 From Pcfg Require Import ProbAlg Next NextSpec NextProofs Session SessionProofs.
-From PcfgGen Require Import Consts_gen.
+From Pcfg Require Import KernelRt KernelGenProofs.
+From PcfgGen Require Import Consts_gen Kernel_gen.
 Import ListNotations.
 
 (* side condition on the source: the remaining size is handed to create_guesses *)
@@ -30,6 +31,13 @@ Proof.
   exact (fun A rs H pop Hp => conj (fun n => proj1 (C01_sorted_okb rs H pop n Hp))
                                    (proj1 (C02_exactly_once_okb rs H pop Hp))).
 Qed.
+
+(* the `next` kernel PRINCE-LING runs is the translated source of find_children /
+   _are_you_my_child (regenerated on every run), equal to the model above *)
+Theorem C17_source_find_children_is_model :
+  forall (A : palg) (up : P A) (un : var * nat) (rs : ruleset A) (it : item A),
+  inrange rs (ipt it) -> py_find_children up un rs it = find_children rs it.
+Proof. exact (fun A up un rs it => kernel_find_children_eq up un rs it). Qed.
 
 Print Assumptions C17_size_exact.
 Print Assumptions C17_sorted_once.
